@@ -214,6 +214,33 @@ class Gen:
             out.append(((p, local), v))
         return out, decls, scope
 
+    def nested_tree(self, max_depth, max_nodes, amap_root):
+        """no-namespace documents whose holder positions contain elements named after
+        the registered holder classes nl (list), nm (mixed), ns (single), na (list + Attributes)"""
+        r = self.r
+        budget = [max_nodes - 1]
+
+        def text():
+            return r.choice(["", "", "x", "y z", " ", "\n", "t:u", "see "])
+
+        def build(depth, holder, local):
+            e = El((None, local), text=text())
+            if local == "na" and holder or (local == "R" and amap_root):
+                e.attrs = [((None, k), r.choice(["1", "v w", ""])) for k in r.sample(["x", "y", "id"], r.choice([0, 1, 2]))]
+            elif local in NAMES and r.random() < 0.3:
+                e.attrs = [((None, "x"), "1")]
+            nk = 0 if depth >= max_depth else r.choice([0, 1, 1, 2, 3])
+            for _ in range(nk):
+                if budget[0] <= 0:
+                    break
+                budget[0] -= 1
+                name = r.choice(["nl", "nm", "ns", "na"]) if r.random() < 0.5 else r.choice(NAMES)
+                k = build(depth + 1, holder and name not in NAMES, name)
+                k.tail = text()
+                e.kids.append(k)
+            return e
+        return build(0, True, "R")
+
     def rand_tree(self, root_uri, max_depth, max_nodes, trig, root_attrs):
         r = self.r
         budget = [max_nodes - 1]
@@ -299,7 +326,23 @@ def t_gval(v):
         return f"(GText {copt(v['v'], cstr)})"
     if v["t"] == "d":
         return f"(GDerived {cstr(v['q'])} {t_prim(v['v'])})"
+    if v["t"] == "h":
+        w = v["w"]
+        if "none" in w:
+            sh, items = "SNone", []
+        elif "one" in w:
+            sh, items = "SOne", [w["one"]]
+        else:
+            sh, items = "SMany", w["many"]
+        return (f"(GHolder {REG_TERMS[v['c']]} {t_attrs(v['a'])} {sh} {clist([t_gval(x) for x in items], str, 'gval')})")
     raise KeyError("other")
+
+
+REG_TERMS = {}   # element name of a nested holder class -> its wcfg term (filled from the implementation's export)
+
+
+def t_cfg(rq, kind, nss, vq, amap, typed):
+    return (f"(mkCfg {cstr(rq)} {KIND[kind]} {clist(nss, cstr, 'str')} {cstr(vq)} {cbool(amap)} {clist(typed, cstr, 'str')})")
 
 
 def has_other(v):
@@ -312,7 +355,7 @@ def has_other(v):
     return False
 
 
-ERRS = {"ParserError": "EParser", "ConverterError": "EConverter", "XmlContextError": "EContext"}
+ERRS = {"ParserError": "EParser", "ConverterError": "EConverter", "XmlContextError": "EContext", "TypeError": "ETypeError"}
 
 
 def t_pobs(p):
@@ -366,10 +409,9 @@ def t_placement(pid, info):
     if pid is None:
         return "None"
     kind, nsmode, tgt, amap = pid.split("-")
-    cfg = (f"(mkCfg {cstr(info['rq'])} {KIND[kind]} {clist(info['nss'], cstr, 'str')} {cstr(info['vq'])} "
-           f"{cbool(amap == '1')} {clist(info['typed'], cstr, 'str')})")
+    cfg = t_cfg(info["rq"], kind, info["nss"], info["vq"], amap == "1", info["typed"])
     target = "(Some %s)" % cstr("urn:a") if tgt == "a" else "None"
-    return f"(Some (mkPl {cfg} {target} [{KW[nsmode]}]))"
+    return f"(Some (mkPl {cfg} {target} [{KW[nsmode]}] {clist(list(REG_TERMS.values()), str, 'wcfg')}))"
 
 
 def flatten_truth(t, path=()):
@@ -450,7 +492,9 @@ def coq_judge(tag, case_terms, shard=36, timeout=900):
 
 
 # ================================================================== the check
-GUARD_CLASS = {128: "xsi-nil-dropped", 256: "attr-value-prefix-expanded", 512: "attr-value-datatype-clark-rewritten",
+GUARD_MASK = 64 | 128 | 256 | 512 | 1024 | 2048 | 4096 | 16384 | 32768
+GUARD_CLASS = {16384: "typed-child-tail-in-non-mixed-holder", 32768: "single-holder-tail-written-inside",
+               128: "xsi-nil-dropped", 256: "attr-value-prefix-expanded", 512: "attr-value-datatype-clark-rewritten",
                1024: "xsi-type-unprefixed-under-default-namespace", 2048: "python-whitespace-only-text-dropped",
                4096: "xsi-type-primitive-under-holder-wildcard-lossy"}
 CORR_CLASS = {1: "corr-handler-events", 2: "corr-parse", 4: "corr-generator-events", 8: "corr-writer"}
@@ -487,6 +531,15 @@ def witness_docs():
     add("lax-other", El((None, "R"), kids=[a()]), ["list-other-n-0"])
     add("lax-other-a", El(("t", "R"), [("t", "urn:a")], kids=[a()]), ["list-other-a-0"])
     add("lax-target", El((None, "R"), kids=[El(("p", "a"), [("p", "urn:b")])]), ["list-target-n-0"])
+    nl = lambda **kw: El((None, "nl"), **kw)  # noqa: E731
+    add("typed-tail", El((None, "R"), text="see ", kids=[nl(text="cf. ", kids=[El((None, "c"))], tail=" for details"),
+                                                         El((None, "b"), text="!")]),
+        ["list-any-n-0", "single-any-n-0", "mixed-any-n-0", "choice-any-n-0"])
+    add("single-tail", El((None, "R"), kids=[El((None, "ns"), text="t", kids=[a()], tail="u")]), ["mixed-any-n-0"])
+    add("nested-ok", El((None, "R"), text="see ", kids=[
+        nl(text="cf. ", kids=[El((None, "c"))], tail=" for details"),
+        El((None, "nm"), text="x", kids=[nl(), El((None, "na"), attrs=[((None, "k"), "1")], kids=[El((None, "b"), tail="w")])], tail="z"),
+        El((None, "ns"), text="t", kids=[a(tail="v")], tail="u")]), ["mixed-any-n-0", "mixed-any-n-1"])
     add("default-redecl", El((None, "R"), [(None, "urn:a")],
                              kids=[El((None, "a"), [(None, "urn:b")], kids=[El((None, "b"), [(None, "")],
                                    kids=[El((None, "c"), [(None, "urn:a")])])])]), ["list-any-a-0", "single-other-a-1"])
@@ -559,6 +612,14 @@ def build_docs(ck):
         if i % 4 == 1:  # root attributes only make sense with an Attributes map
             docs[-1]["placements"] = [p for p in docs[-1]["placements"] if p.endswith("-1")] or \
                 [pick_placements(i, "urn:a" if truth(e)["n"].startswith("{") else "", 1)[0][:-1] + "1"]
+    # N: holder classes found by element qname below the holder (and, generically, deeper down)
+    NESTED_PL = ["mixed-any-n-0", "mixed-any-n-1", "list-any-n-0", "single-any-n-0", "choice-any-n-0", "mixed-local-n-0",
+                 "list-any-n-1", "single-any-n-1"]
+    for i in range(ck.n(90, 2500)):
+        e = g.nested_tree(r.choice([2, 3, 4]), r.choice([5, 9, 16]), amap_root=(i % 4 == 1))
+        pls = [p for p in NESTED_PL if p.endswith("-1")] if i % 4 == 1 else NESTED_PL
+        docs.append({"kind": "nested", "el": e, "handlers": ["native", "lxml"],
+                     "placements": [pls[(i + j * 3) % len(pls)] for j in range(ck.n(2, 3))]})
     # D: one witness per listed finding (first, so that findings are attributed to them), E: chunk boundaries
     docs = witness_docs() + docs
     docs += big_docs(g, r, ck.n(16, 80))
@@ -574,6 +635,10 @@ def process_batch(ck, docs, st):
     res = run_impl("impl_c11.py", req, timeout=2400)
     info = res["placements"]
     stats, kinds, distinct = st["stats"], st["kinds"], st["distinct"]
+    for n in info.pop("__registry__"):
+        if not n["found"] or n["nillable"]:
+            ck.failure("corr-holder-metadata", f"nested holder class {n}", {"nested": n})
+        REG_TERMS[n["rq"]] = t_cfg(n["rq"], n["kind"], n["nss"], n["vq"], n["amap"], n["typed"])
 
     # the holder classes are what the model assumes (non-nillable, strict, list/mixed flags)
     for pid, pi in info.items():
@@ -629,7 +694,7 @@ def process_batch(ck, docs, st):
             for bitv, cls in CORR_CLASS.items():
                 if code & bitv:
                     ck.failure(cls, f"model and implementation disagree ({cls}) on {who}: {short}", replay)
-            guards = code & (64 | 128 | 256 | 512 | 1024 | 2048 | 4096)
+            guards = code & GUARD_MASK
             if guards == 0:
                 stats["guard_clean"] += 1
             if code & 16:
